@@ -561,7 +561,9 @@ def _create_sbml_reactions(
                 case Derived():
                     # SBML uses species references for derived stoichiometries
                     # So we need to create a assignment rule and then refer to it
-                    reference = f"{compound_id}ref"
+                    # One rule per reaction and species: the same species can carry
+                    # a computed coefficient in more than one reaction
+                    reference = f"{name}_{compound_id}ref"
                     _create_derived_parameter(sbml_model, reference, factor)
 
                     # The sign of a computed coefficient is not known here.
